@@ -732,6 +732,23 @@ def c_divmod(a, b):
     _, rel = h_split(a * 7 - 9, b + 1)
     return origin, rel
 
+import contextlib
+
+@contextlib.contextmanager
+def h_ctx(name, opener):
+    ev(('before', name))
+    with CM():
+        with opener() as inner:
+            yield (name, type(inner).__name__)
+    ev(('after', name))
+
+def c_ctxmgr(a, b):
+    with h_ctx(a, lambda: CM()) as got:
+        ev(('body', got))
+        if b > 2:
+            raise Err(b)
+    return got
+
 def c_meth(v, a):
     return K(v).caller_m(a)
 
@@ -803,6 +820,7 @@ def main():
         'c_methval_call': itertools.product(vals, vals),
         'c_gen_continue': itertools.product(vals, vals), 'c_gen_continue_after': itertools.product(vals, vals),
         'c_divmod': itertools.product(vals, vals),
+        'c_ctxmgr': itertools.product(vals, vals),
         'c_rng_swapped': itertools.product(vals, vals), 'c_closure': itertools.product(vals, vals), 'c_try_rest': [(v,) for v in vals], 'c_try_ret': [(v,) for v in vals], 'c_try_norets': [(v,) for v in vals], 'c_rng_self': itertools.product(vals, vals),
     }
     bad = 0
@@ -823,7 +841,7 @@ def main():
     # every form must actually have been exercised
     want = {'h_pred', 'h_expr', 'h_stmt', 'h_none', 'h_search', 'h_all', 'h_any', 'h_try', 'h_with', 'h_kw', 'h_default', 'h_nested', 'h_shadow',
             'K._m', 'K._set', 'K._reset_then', 'h_rng', 'h_closure', 'h_try_ret', 'h_try_norets', 'h_inout', 'h_mut', 'h_tmp', 'h_pure2',
-            'h_stmtpred', 'h_uses_t', 'h_none_or', 'h_frame', 'h_rec', 'h_checked', 'h_out', 'h_entry', 'local closure'}
+            'h_stmtpred', 'h_uses_t', 'h_none_or', 'h_frame', 'h_rec', 'h_checked', 'h_out', 'h_entry', 'local closure', 'h_ctx', 'h_gen_skip', 'h_split'}
     missing = want - set(inl)
     if missing:
         print('NOT EXERCISED: %s' % sorted(missing))
